@@ -31,6 +31,14 @@ def run_case(ctx, case, check, label, shrink=None, shr=None, max_shrinks=3, samp
     except common_mod.StepBudget as e:
         res = ('non-termination', '%s (case %r)' % (e, repr(case)[:600]))
         st.count('loop_guard_verdicts')
+    except Exception as e:
+        # an exception that escaped from the code under test where the check did not expect one to be possible (a plain
+        # read-out, say) is the library's doing; one raised by the harness itself is a harness bug and is not hidden
+        if not common_mod.raised_in_library(e):
+            raise
+        res = ('raised:%s' % type(e).__name__, 'the library raised %r where no exception is possible for a valid input (case %r)'
+               % (e, repr(case)[:600]))
+        st.count('unexpected_library_exceptions')
     finally:
         guard.disarm()
     if sample:
